@@ -24,6 +24,7 @@ import (
 	"github.com/cosmos/cosmos-sdk/types/tx/signing"
 	authsign "github.com/cosmos/cosmos-sdk/x/auth/signing"
 	authtypes "github.com/cosmos/cosmos-sdk/x/auth/types"
+	vestingtypes "github.com/cosmos/cosmos-sdk/x/auth/vesting/types"
 	banktypes "github.com/cosmos/cosmos-sdk/x/bank/types"
 	govv1 "github.com/cosmos/cosmos-sdk/x/gov/types/v1"
 	"github.com/cosmos/ibc-go/v7/testing/mock"
@@ -71,6 +72,7 @@ type chainCfg struct {
 	strValFee  sdk.Dec
 	whitelist  []int
 	votingSecs int
+	vesting    map[int]int64 // account index -> original vesting amount of nund (continuous vesting)
 	dbBackend  string // "memdb" or "goleveldb"
 	dbDir      string
 }
@@ -154,7 +156,13 @@ func newChain(cfg chainCfg) *chain {
 		ac := mkAcct(fmt.Sprintf("verif-acct-%d-seed-0123456789abcdef", i))
 		c.accts = append(c.accts, ac)
 		c.addrIdx[ac.addr.String()] = i
-		genAccs = append(genAccs, authtypes.NewBaseAccount(ac.addr, nil, 0, 0))
+		if v, ok := cfg.vesting[i]; ok {
+			start := time.Unix(1700000000, 0).Unix()
+			genAccs = append(genAccs, vestingtypes.NewContinuousVestingAccount(authtypes.NewBaseAccount(ac.addr, nil, 0, 0),
+				sdk.NewCoins(sdk.NewInt64Coin("nund", v)), start, start+10_000_000))
+		} else {
+			genAccs = append(genAccs, authtypes.NewBaseAccount(ac.addr, nil, 0, 0))
+		}
 		bals = append(bals, banktypes.Balance{Address: ac.addr.String(), Coins: initialBalances()})
 	}
 	c.addrIdx[moduleAddr(enttypes.ModuleName).String()] = mEnt
@@ -256,6 +264,15 @@ func (c *chain) commit() []byte {
 // ctx returns the deliver-state context inside a block, the check-state context otherwise.
 func (c *chain) ctx() sdk.Context {
 	return c.app.BaseApp.NewContext(!c.inBlock, tmproto.Header{ChainID: chainID, Height: c.height, Time: c.now})
+}
+
+// committedCtx reads the last committed state (the check state may carry ante effects of CheckTx calls)
+func (c *chain) committedCtx() sdk.Context {
+	ctx, err := c.app.BaseApp.CreateQueryContext(c.app.LastBlockHeight(), false)
+	if err != nil {
+		panic(err)
+	}
+	return ctx
 }
 
 func (c *chain) ctxFor(check bool) sdk.Context {
